@@ -299,6 +299,7 @@ class Runner:
         env, policy, algo, cb = self._materialise(plan)
         self._cur_obs = np.asarray(plan["world"]["obs"])
         mdp = RefMDP(self.kind, self.comps, plan["world"], time_limit=int(kn["time_limit"]) if self.has_tl else None)
+        self._term_table = [bool(x) for x in plan["world"]["term"]]
         gamma, alpha = float(kn["gamma"]), float(kn["alpha"])
         faults = {f["at_op"]: f for f in plan.get("faults", [])}
         state = None
@@ -452,8 +453,11 @@ class Runner:
         for i in range(n):
             b = bufs[i]
             for idx in range(min(pos, cap)):
-                rows.append({"s": int(b["obs_ids"][idx]), "a": b["actions"][idx], "r": float(b["rewards"][idx]), "s2": int(b["next_ids"][idx]),
-                             "done": bool(b["dones"][idx]), "timeout": bool(b["timeouts"][idx])})
+                s2_ = int(b["next_ids"][idx])
+                rows.append({"s": int(b["obs_ids"][idx]), "a": b["actions"][idx], "r": float(b["rewards"][idx]), "s2": s2_,
+                             "done": bool(b["dones"][idx]), "timeout": bool(b["timeouts"][idx]),
+                             # TRUE termination of this transition as scheduled by the simulator (not what the collector stored)
+                             "term_true": bool(self._term_table[s2_]) if 0 <= s2_ < len(self._term_table) else False})
         E = res.events
         for r in rows:
             if r["done"] and r["timeout"]:
@@ -469,6 +473,10 @@ class Runner:
             scale = max(1.0, float(np.max(np.abs(ref_q))))
             if not np.allclose(got, ref_q, rtol=0, atol=3e-5 * scale):
                 cause = self._dqn_cause(old, rows, gamma, got, scale)
+                stored_rows = [{k: v for k, v in r.items() if k != "term_true"} for r in rows]
+                if np.allclose(got, dqn_reference_step(old["q"], old["qt"], stored_rows, gamma, self.sgd_lr)[0], rtol=0, atol=3e-5 * scale):
+                    cause = ("dqn_no_bootstrap_on_term", "stored_timeout_flag_hides_a_true_termination") if any(r["term_true"] and r["timeout"] for r in rows) \
+                        else ("dqn_bootstrap_through_timeout", "stored_flags_disagree_with_scheduled_events")
                 bad = np.argwhere(np.abs(got - ref_q) > 3e-5 * scale)[0]
                 res.fail("C07", "dqn_target_formula" if cause == "mismatch" else cause[0], cause if cause == "mismatch" else cause[1],
                          entry=[int(bad[0]), int(bad[1])], got=float(got[tuple(bad)]), expected=float(ref_q[tuple(bad)]), rows=rows[:16], gamma=gamma)
@@ -495,7 +503,7 @@ class Runner:
             s2 = r["s2"]
             an = float(np.sum(nact[s2]))
             v = min(q1t[s2] + w1t * an, q2t[s2] + w2t * an) - al * nlp[s2]
-            terminated = r["done"] and not r["timeout"]
+            terminated = r["term_true"]
             ys.append(r["r"] + gamma * (0.0 if terminated else 1.0) * v)
         q1, q2 = old["q1"].astype(np.float64), old["q2"].astype(np.float64)
         w1, w2 = float(old["w1"]), float(old["w2"])
@@ -544,7 +552,7 @@ class Runner:
             return out
 
         def nt(r):
-            return 0.0 if (r["done"] and not r["timeout"]) else 1.0
+            return 0.0 if r.get("term_true", r["done"] and not r["timeout"]) else 1.0
 
         rules = {
             ("dqn_bootstrap_through_timeout", "no_bootstrap_on_timeout"): lambda r: r["r"] + gamma * (0.0 if r["done"] else 1.0) * qt[r["s2"], int(np.argmax(q[r["s2"]]))],
@@ -578,9 +586,10 @@ class Runner:
             return tot
 
         def nt(r):
-            return 0.0 if (r["done"] and not r["timeout"]) else 1.0
+            return 0.0 if r.get("term_true", r["done"] and not r["timeout"]) else 1.0
 
         rules = {
+            "stored_timeout_flag_hides_a_true_termination": lambda r, a, b, lp: r["r"] + gamma * (0.0 if (r["done"] and not r["timeout"]) else 1.0) * (min(a, b) - al * lp),
             "max_of_target_critics": lambda r, a, b, lp: r["r"] + gamma * nt(r) * (max(a, b) - al * lp),
             "entropy_term_missing": lambda r, a, b, lp: r["r"] + gamma * nt(r) * min(a, b),
             "entropy_term_wrong_sign": lambda r, a, b, lp: r["r"] + gamma * nt(r) * (min(a, b) + al * lp),
